@@ -48,12 +48,13 @@ fn bytes_biased(t: &mut Tape, rng: &mut SimRng, len: usize) -> Vec<u8> {
 }
 
 fn len_biased(t: &mut Tape, natural: usize) -> usize {
-    match t.usize(8) {
+    match t.usize(9) {
         0 => 0,
         1 => natural.saturating_sub(1),
         2 => natural + 1,
         3 => 2 * natural,
         4 => t.usize(3 * natural + 2),
+        5 => [1, 31, 33, 63, 64, 65, 127, 128, 129, 255, 256, 1000][t.usize(12)],
         _ => natural,
     }
 }
